@@ -1260,7 +1260,7 @@ class SimplicialComplex:
                             s = self.addSimplex(fs=cfs)
                             i = self.indexOf(s)
                             nss[k].add(i)
-                            maxk = k
+                            maxk = max(maxk, k)
 
     def flagComplex(self) -> 'SimplicialComplex':
         """Generate the :term:`flag complex` of this complex. The flag complex
@@ -1276,9 +1276,11 @@ class SimplicialComplex:
         # start with a copy of ourselves
         flag = copy.copy(self)
 
-        # we work from the bottom with all 1-simplices
+        # we work from the bottom with all 1-simplices, and with any
+        # higher simplices already present
         nss = dict()
-        nss[1] = set(range(len(flag.simplicesOfOrder(1))))
+        for k in range(1, max(flag.maxOrder(), 1) + 1):
+            nss[k] = set(range(len(flag.simplicesOfOrder(k))))
         flag._completePotentialSimplices(nss)
 
         return flag
